@@ -27,7 +27,8 @@ def strat_baseline():
     @st.composite
     def case(draw):
         n = draw(st.integers(2, 6))
-        ang = math.radians(draw(st.floats(-59, 59, allow_nan=False)))
+        long_line = draw(st.integers(0, 14)) == 0
+        ang = math.radians(draw(st.floats(-59, 59, allow_nan=False))) if not long_line else math.radians(draw(st.floats(-8, 8, allow_nan=False)))
         x = float(draw(st.integers(-40, 300)))
         y = float(draw(st.integers(-40, 300)))
         frac = draw(st.booleans())
@@ -39,7 +40,7 @@ def strat_baseline():
                 px += draw(st.floats(0, 0.99, allow_nan=False))
                 py += draw(st.floats(0, 0.99, allow_nan=False))
             pts.append((float(px), float(py)))
-            seg = draw(st.integers(20, 90))
+            seg = draw(st.integers(20, 90)) if not long_line else draw(st.integers(300, 700))
             a = a + math.radians(draw(st.floats(-5, 5, allow_nan=False)))
             a = max(math.radians(-59), min(math.radians(59), a))
             x = float(round(x + seg * math.cos(a)))
